@@ -110,6 +110,18 @@ def expand_names(fn: ast.FunctionDef, e: ast.AST, depth: int = 4) -> ast.AST:
     return X(depth).visit(_copy.deepcopy(e))
 
 
+_TAG = None
+
+
+def untag(text: str) -> str:
+    """text without the suffixes the helper inliner appends to a helper's locals (`siz__gauss_points3` -> `siz`)"""
+    global _TAG
+    if _TAG is None:
+        import re
+        _TAG = re.compile(r"(?<=[A-Za-z0-9])__[A-Za-z][A-Za-z0-9_]*?\d+\b")
+    return _TAG.sub("", text)
+
+
 def canon_arith(e: ast.AST) -> str:
     """Text of an arithmetic expression with products/quotients flattened into sorted numerator / denominator factor
     lists and sums sorted, so that `n*(s/2)/r` and `(s/2)*n/r` compare equal."""
@@ -155,6 +167,69 @@ def none_facts(cfg, nd):
     return out
 
 
+def dominating_tests(cfg, nd):
+    """[(test expression, truth)] of the branch decisions every path to `nd` has taken"""
+    out = []
+    for t in cfg.dominators().get(nd, ()):
+        if t.kind != "test" or t.ast is None or t is nd:
+            continue
+        for lab, truth in (("T", True), ("F", False)):
+            succ = [s for s, l in t.succ if l == lab]
+            other = [s for s, l in t.succ if l not in (lab, "exc")]
+            if succ and nd in cfg.reachable(succ, labels_excluded=("exc",)) and \
+                    nd not in cfg.reachable(other, blocked=[t], labels_excluded=("exc",)):
+                out.append((t.ast, truth))
+    return out
+
+
+def _bool_eval(e, val):
+    """three-valued evaluation of a test under an assignment of its `X is None` atoms (other atoms: by text)"""
+    if isinstance(e, ast.UnaryOp) and isinstance(e.op, ast.Not):
+        return not _bool_eval(e.operand, val)
+    if isinstance(e, ast.BoolOp):
+        vs = [_bool_eval(v, val) for v in e.values]
+        return all(vs) if isinstance(e.op, ast.And) else any(vs)
+    if isinstance(e, ast.Compare) and len(e.ops) == 1 and isinstance(e.comparators[0], ast.Constant) and \
+            e.comparators[0].value is None and isinstance(e.ops[0], (ast.Is, ast.IsNot)):
+        v = val["N:" + "".join(ast.unparse(e.left).split())]
+        return v if isinstance(e.ops[0], ast.Is) else not v
+    return val["O:" + "".join(ast.unparse(e).split())]
+
+
+def _bool_atoms(e, out):
+    if isinstance(e, ast.UnaryOp) and isinstance(e.op, ast.Not):
+        _bool_atoms(e.operand, out)
+    elif isinstance(e, ast.BoolOp):
+        for v in e.values:
+            _bool_atoms(v, out)
+    elif isinstance(e, ast.Compare) and len(e.ops) == 1 and isinstance(e.comparators[0], ast.Constant) and \
+            e.comparators[0].value is None and isinstance(e.ops[0], (ast.Is, ast.IsNot)):
+        out.add("N:" + "".join(ast.unparse(e.left).split()))
+    else:
+        out.add("O:" + "".join(ast.unparse(e).split()))
+
+
+def none_entailed(constraints, expr_text: str) -> Optional[bool]:
+    """Given branch decisions [(test, truth)], is `expr_text is None` forced True / forced False / open (None)?  Decided
+    by enumeration over the atoms (`X is None` comparisons; anything else is an opaque boolean)."""
+    import itertools
+    atoms: Set[str] = set()
+    for t, _ in constraints:
+        _bool_atoms(t, atoms)
+    key = "N:" + expr_text
+    if key not in atoms or len(atoms) > 10:
+        return None
+    names = sorted(atoms)
+    seen = set()
+    for bits in itertools.product((False, True), repeat=len(names)):
+        val = dict(zip(names, bits))
+        if all(bool(_bool_eval(t, val)) == truth for t, truth in constraints):
+            seen.add(val[key])
+    if len(seen) == 1:
+        return seen.pop()
+    return None
+
+
 def _none_conjuncts(test, truth):
     if isinstance(test, ast.UnaryOp) and isinstance(test.op, ast.Not):
         return _none_conjuncts(test.operand, not truth)
@@ -170,3 +245,60 @@ def _none_conjuncts(test, truth):
         isnone = isinstance(test.ops[0], ast.Is)
         return [("".join(ast.unparse(test.left).split()), isnone if truth else not isnone)]
     return []
+
+
+# ------------------------------------------------------------------------------------- lockstep iteration
+class LoopElems:
+    """What the names bound by one `for` / comprehension clause denote: `elems[name]` is the sequence the name walks
+    through, element by element and in lockstep with every other bound name (for x in S; for i, x in enumerate(S);
+    for a, b in zip(A, B); for i, (a, b) in enumerate(zip(A, B))), `idx` the name of the position counter (from
+    enumerate, or the target of `for i in range(...)`, in which case `count` is range's argument)."""
+
+    def __init__(self, target: ast.AST, it: ast.AST):
+        self.elems: Dict[str, ast.AST] = {}
+        self.idx: Optional[str] = None
+        self.count: Optional[ast.AST] = None
+        self.reversed = False
+        self._bind(target, it)
+
+    def _bind(self, target, it):
+        if isinstance(it, ast.Call) and isinstance(it.func, ast.Name) and not it.keywords:
+            fn = it.func.id
+            if fn == "enumerate" and len(it.args) == 1 and isinstance(target, ast.Tuple) and len(target.elts) == 2 \
+                    and isinstance(target.elts[0], ast.Name):
+                self.idx = target.elts[0].id
+                self._bind(target.elts[1], it.args[0])
+                return
+            if fn == "zip" and isinstance(target, ast.Tuple) and len(target.elts) == len(it.args) \
+                    and not any(isinstance(a, ast.Starred) for a in it.args):
+                for t, a in zip(target.elts, it.args):
+                    self._bind(t, a)
+                return
+            if fn == "range" and len(it.args) == 1 and isinstance(target, ast.Name):
+                self.idx = target.id
+                self.count = it.args[0]
+                return
+        if isinstance(target, ast.Name):
+            self.elems[target.id] = it
+
+    def denotes(self, e: ast.AST) -> Optional[str]:
+        """normalised text of the sequence whose current element `e` is, or None"""
+        if isinstance(e, ast.Name) and e.id in self.elems:
+            return "".join(ast.unparse(self.elems[e.id]).split())
+        if isinstance(e, ast.Subscript) and isinstance(e.slice, ast.Name) and e.slice.id == self.idx and self.idx:
+            return "".join(ast.unparse(e.value).split())
+        return None
+
+
+def flat_sequence_parts(it: ast.AST) -> Optional[List[ast.AST]]:
+    """`A + B + C`, `(*A, *B)`, `[*A, *B]`, `itertools.chain(A, B)`: the concatenated sequences in order; None if
+    `it` is not a pure concatenation"""
+    if isinstance(it, ast.BinOp) and isinstance(it.op, ast.Add):
+        l, r = flat_sequence_parts(it.left), flat_sequence_parts(it.right)
+        return (l or [it.left]) + (r or [it.right])
+    if isinstance(it, (ast.Tuple, ast.List)) and it.elts and all(isinstance(x, ast.Starred) for x in it.elts):
+        return [x.value for x in it.elts]
+    if isinstance(it, ast.Call) and ast.unparse(it.func) in ("chain", "itertools.chain") and it.args and not it.keywords \
+            and not any(isinstance(a, ast.Starred) for a in it.args):
+        return list(it.args)
+    return None
